@@ -227,6 +227,19 @@ impl SecondaryTransaction {
     ) -> StorageResult<SecondaryTableTxnIterator> {
         assert!(!opts.reversed, "reverse iterator is not supported for now");
 
+        // The optimizer relies on scans of this engine being ordered by primary key whether or
+        // not the key is selected (`StorageImpl::table_is_sorted_by_primary_key`). Several RowSets
+        // can only be merged by key if the key columns are scanned: those the caller did not ask
+        // for are scanned as well, at the end of the column list, and hidden from the output.
+        let rowset_count =
+            (self.snapshot.get_rowsets_of(self.table.table_id())).map_or(0, |r| r.len());
+        let hidden_keys = find_sort_key_id(&self.table.columns)
+            .into_iter()
+            .map(|id| StorageColumnRef::Idx(id as u32))
+            .filter(|key| rowset_count > 1 && !col_idx.contains(key))
+            .collect_vec();
+        let col_idx = &[col_idx, &hidden_keys[..]].concat()[..];
+
         let mut iters: Vec<RowSetIterator> = vec![];
 
         if let Some(rowsets) = self.snapshot.get_rowsets_of(self.table.table_id()) {
@@ -287,7 +300,10 @@ impl SecondaryTransaction {
             }
         };
 
-        Ok(SecondaryTableTxnIterator::new(final_iter))
+        Ok(SecondaryTableTxnIterator::new(
+            final_iter,
+            hidden_keys.len(),
+        ))
     }
 
     /// Aggregate block statistics of one column. In the future, we might support predicate
